@@ -35,10 +35,10 @@ type Ledger struct {
 	Deliv    []DelivRec
 	nsub     int
 
-	MinLat, MaxLat   time.Duration // latency of calls
-	EvMin, EvMax     time.Duration // latency of event delivery
-	FailP            float64       // probability that a Register/Withdraw call fails outright (relaxed configurations)
-	ExtendOnRefute   bool          // false: a refutation does not extend the challenge period
+	MinLat, MaxLat time.Duration // latency of calls
+	EvMin, EvMax   time.Duration // latency of event delivery
+	FailP          float64       // probability that a Register/Withdraw call fails outright (relaxed configurations)
+	ExtendOnRefute bool          // false: a refutation does not extend the challenge period
 }
 
 // DelivRec records the delivery of an event to a subscription.
